@@ -41,6 +41,29 @@ Definition geom_case_ok (syms : list (tf NumF)) (ss : list (site NumF)) (c : cel
    fsame (shape_radius NumF fmin_ sh) radius,
    opt_same (packed_score NumF st) score).
 
+(* one pair case (C12): the pair predicate on two placements of a shape, both ways *)
+Definition pair_case (sh : shape NumF) (t1 t2 : tf NumF) : bool * bool :=
+  let s1 := shape_transform NumF t1 sh in
+  let s2 := shape_transform NumF t2 sh in
+  (shape_intersects NumF s1 s2, shape_intersects NumF s2 s1).
+
+(* Transform2 * Transform2 (C12 / C04): the model's product against the recorded one *)
+Definition mul_case_ok (l r p : tf NumF) : bool := tf_same (tf_mul NumF l r) p.
+
+(* powi with a constant exponent as LLVM expands it: multiplications by binary decomposition *)
+Fixpoint powi_pos (x : float) (p : positive) : float :=
+  match p with
+  | xH => x
+  | xO q => let h := powi_pos x q in h * h
+  | xI q => let h := powi_pos x q in h * h * x
+  end.
+Definition powi_c (x : float) (n : Z) : float :=
+  match n with Z0 => 1 | Zpos p => powi_pos x p | Zneg _ => nan end.
+
+(* one particle pair (C13): the Lennard-Jones energy both ways *)
+Definition lj2_case (a b : lj NumF) : float * float :=
+  (lj_energy NumF powi_c a b, lj_energy NumF powi_c b a).
+
 (* ------------------------------------------------------------------ *)
 (* the optimiser model on a recorded run at zero temperature (exp is only ever applied to -inf, +inf or NaN) *)
 From PV Require Import model.Optimiser.
